@@ -273,4 +273,69 @@ def GeoBox.snapTo (self other : GeoBox) : Res GeoBox :=
   | .error e => .error e
   | .ok (tx, ty) => .ok (self.translatePix (subpix tx) (subpix ty))
 
+/-! ### more of `BoundingBox` (geom.py:109-133, 133-160, 247-297) -/
+
+/-- Python `int(x)` of a finite float: truncation towards zero. -/
+def pyInt (x : Rat) : Int := if 0 ≤ x then x.floor else x.ceil
+
+/-- `BoundingBox.buffered(xbuff, ybuff=None)` -/
+def BBox.buffered (bb : BBox Rat) (xbuff : Rat) (ybuff : Option Rat) : BBox Rat :=
+  let yb := match ybuff with | none => xbuff | some v => v
+  ⟨bb.left - xbuff, bb.bottom - yb, bb.right + xbuff, bb.top + yb, bb.crs⟩
+
+/-- `span_x`, `span_y` -/
+def BBox.spanX (bb : BBox Rat) : Rat := bb.right - bb.left
+def BBox.spanY (bb : BBox Rat) : Rat := bb.top - bb.bottom
+/-- `width = int(right - left)`, `height = int(top - bottom)`, `shape = (height, width)` -/
+def BBox.width (bb : BBox Rat) : Int := pyInt (bb.right - bb.left)
+def BBox.height (bb : BBox Rat) : Int := pyInt (bb.top - bb.bottom)
+def BBox.shape (bb : BBox Rat) : Int × Int := (bb.height, bb.width)
+
+/-- `BoundingBox.from_xy(x, y, crs)`: `sorted` of each pair -/
+def BBox.fromXY (x y : Rat × Rat) (crs : Option Nat) : BBox Rat :=
+  ⟨min x.1 x.2, min y.1 y.2, max x.1 x.2, max y.1 y.2, crs⟩
+
+/-- `BoundingBox.from_points(p1, p2, crs)` -/
+def BBox.fromPoints (p1 p2 : Rat × Rat) (crs : Option Nat) : BBox Rat :=
+  BBox.fromXY (p1.1, p2.1) (p1.2, p2.2) crs
+
+/-- `BoundingBox.from_transform(shape, transform, crs)`: the box through the images of the pixel
+corners `(0, 0)` and `(nx, ny)` only. -/
+def BBox.fromTransform (ny nx : Int) (A : Aff) (crs : Option Nat) : BBox Rat :=
+  BBox.fromPoints (A.apply (0, 0)) (A.apply ((nx : Rat), (ny : Rat))) crs
+
+/-! ### IEEE specials in `bbox_union` / `bbox_intersection`
+
+Python's `min(a, b)` is `b if b < a else a`, `max(a, b)` is `b if b > a else a`; every comparison with
+`nan` is false.  `PyF` is the carrier "finite rational, ±inf or nan" with exactly that `min`/`max`, so
+that `bboxUnion`/`bboxIntersection` (generic in the carrier) also describe what the code does on
+non-finite operands. -/
+
+inductive PyF where
+  | fin (q : Rat)
+  | pinf
+  | ninf
+  | nan
+  deriving DecidableEq, Repr
+
+/-- `a < b` on doubles -/
+def PyF.lt : PyF → PyF → Bool
+  | .nan, _ => false
+  | _, .nan => false
+  | .fin a, .fin b => decide (a < b)
+  | .ninf, .ninf => false
+  | .ninf, _ => true
+  | _, .ninf => false
+  | .pinf, _ => false
+  | _, .pinf => true
+
+instance : Min PyF := ⟨fun a b => if PyF.lt b a then b else a⟩
+instance : Max PyF := ⟨fun a b => if PyF.lt a b then b else a⟩
+
+/-- GeoBox neighbours / padding used by the composition theorems are taken from the C02 model
+(`OdcGeo.C02.pad`, `.left`, `.right`, `.top`, `.bottom`, `.flipx`, `.flipy`, `.crop`). -/
+def GeoBox.pad (g : GeoBox) (padx : Int) (pady : Option Int) : GeoBox :=
+  let py := match pady with | none => padx | some v => v
+  ⟨g.ny + py * 2, g.nx + padx * 2, g.aff * Aff.translation (-(padx : Rat)) (-(py : Rat)), g.crs⟩
+
 end OdcGeo.C16
